@@ -62,9 +62,16 @@ fn device_with_registry(dev: &device::SessionManager, reg: &TrustAnchorRegistry)
 
 pub fn run(ctx: &mut Ctx) {
     let scenes = ctx.budget(6, 200);
-    for _ in 0..scenes {
+    // the LAST scene is the "expiry" scene: the reader's certificate is valid for three more seconds; a first, authentic request
+    // is handled at once, the judged one (same chain, same session object) four seconds later
+    for scene_i in 0..scenes + 1 {
+        let expiry_scene = scene_i == scenes;
         let mut rng = ctx.rng.clone();
-        let pki = Pki::generate(&mut rng);
+        let mut pki = Pki::generate(&mut rng);
+        if expiry_scene {
+            let now = std::time::SystemTime::now().duration_since(std::time::UNIX_EPOCH).unwrap().as_secs();
+            if let Some(c) = pki::leaf_cert_valid(&pki.reader_key, &pki.reader_ca_key, "CN=Test Reader CA,C=US", "CN=Test Reader,C=US", pki::EKU_READER, 93, now - 60, now + 3) { pki.reader = c; }
+        }
         let other_pki = Pki::generate(&mut rng);
         let (m, _) = issue(&mut rng, &pki, MDL, [(NS.to_string(), [("family_name".to_string(), Value::Text("Doe".into()))].into_iter().collect())].into_iter().collect(), DigestAlgorithm::SHA256, false);
         let first: std::collections::BTreeMap<String, Vec<String>> = [(NS.to_string(), vec!["family_name".to_string()])].into_iter().collect();
@@ -104,12 +111,26 @@ pub fn run(ctx: &mut Ctx) {
         let mut patterns: Vec<(usize, Vec<Ra>)> = patterns.into_iter().map(|p| (0, p)).collect();
         for ri in 1..regs.len() { for k in [Ra::Authentic, Ra::UntrustedCa, Ra::OtherKey] { patterns.push((ri, vec![k])); } }
         for ri in 5..regs.len() { patterns.push((ri, vec![Ra::Authentic, Ra::Authentic])); patterns.push((ri, vec![Ra::Authentic, Ra::Absent])); }
+        let (ncases, patterns) = if expiry_scene { (0, vec![(0usize, vec![Ra::Authentic]), (0, vec![Ra::Authentic, Ra::Authentic])]) } else { (ncases, patterns) };
         let ncases = ncases + patterns.len();
         for ci in 0..ncases {
             let pattern_full: Option<&(usize, Vec<Ra>)> = if ci >= ncases - patterns.len() { Some(&patterns[ci - (ncases - patterns.len())]) } else { None };
             let pattern: Option<&Vec<Ra>> = pattern_full.map(|p| &p.1);
             let ndr = match pattern { Some(p) => p.len(), None => if ci < kinds.len() { 1 } else { rng.gen_range(1..=3) } };
             let (reg_name, reg) = &regs[if let Some(p) = pattern_full { p.0 } else if ci < kinds.len() * 2 { ci % 2 * (ci / kinds.len()) } else { rng.gen_range(0..regs.len()) }];
+            let mut dev = device_with_registry(&e.dev, reg);
+            // one case in four is the SECOND request of its session: an authentic, reader-authenticated request came first
+            let warmed = ci % 4 == 3 || expiry_scene;
+            if warmed {
+                let items0 = items_request_bytes(&mut rng, false);
+                let ra0 = reader_auth(&pki.reader_key, Some(pki.reader.to_der().unwrap()), None, -7, &rab(&de, &erk, &items0), false);
+                let req0 = Value::Map(vec![(text("version"), text("1.0")), (text("docRequests"), arr(vec![Value::Map(vec![(text("itemsRequest"), Value::Tag(24, Box::new(bytes(&items0)))), (text("readerAuth"), ra0)])]))]);
+                let (dk0, _) = dev_view(&dev);
+                let msg0 = session_data(Some(&aes_encrypt(&dk0.sk_reader, &iso_iv(false, dk0.reader_ctr as u32 + 1), &to_bytes(&req0))), None);
+                let _ = catch(|| dev.handle_request(&msg0));
+                ctx.count("second-request-of-session");
+                if expiry_scene && ci == 0 { std::thread::sleep(std::time::Duration::from_secs(4)); ctx.count("second-request-after-the-certificate-expired"); }
+            }
             let mut doc_requests = vec![];
             let mut prev: Option<(Vec<u8>, Option<Value>)> = None;
             let mut model_reqs = vec![];
@@ -180,6 +201,8 @@ pub fn run(ctx: &mut Ctx) {
                                     let indep = x509_cert::Certificate::from_der(&first_der).ok().map(|leaf| {
                                         use p256::pkcs8::DecodePublicKey;
                                         let tbs = leaf.tbs_certificate.to_der().unwrap_or_default();
+                                        let t = std::time::SystemTime::now();
+                                        if !(leaf.tbs_certificate.validity.not_before.to_system_time() <= t && t <= leaf.tbs_certificate.validity.not_after.to_system_time()) { return false; }
                                         let sig = leaf.signature.as_bytes().and_then(|b| Signature::from_der(b).ok());
                                         reg.anchors.iter().any(|a| a.purpose == TrustPurpose::ReaderCa
                                             && a.certificate.tbs_certificate.subject == leaf.tbs_certificate.issuer
@@ -215,18 +238,6 @@ pub fn run(ctx: &mut Ctx) {
                 model_reqs.push(arr(vec![bytes(&items), ra_enc.as_ref().map(|e| bytes(e)).unwrap_or(Value::Null), uint(x5code), Value::Bool(chain_valid), Value::Bool(vk.is_some()), arr(vec![Value::Bool(parses), Value::Bool(authentic)])]));
             }
             let request = Value::Map(vec![(text("version"), text("1.0")), (text("docRequests"), arr(doc_requests))]);
-            let mut dev = device_with_registry(&e.dev, reg);
-            // one case in four is the SECOND request of its session: an authentic, reader-authenticated request came first
-            let warmed = ci % 4 == 3;
-            if warmed {
-                let items0 = items_request_bytes(&mut rng, false);
-                let ra0 = reader_auth(&pki.reader_key, Some(pki.reader.to_der().unwrap()), None, -7, &rab(&de, &erk, &items0), false);
-                let req0 = Value::Map(vec![(text("version"), text("1.0")), (text("docRequests"), arr(vec![Value::Map(vec![(text("itemsRequest"), Value::Tag(24, Box::new(bytes(&items0)))), (text("readerAuth"), ra0)])]))]);
-                let (dk0, _) = dev_view(&dev);
-                let msg0 = session_data(Some(&aes_encrypt(&dk0.sk_reader, &iso_iv(false, dk0.reader_ctr as u32 + 1), &to_bytes(&req0))), None);
-                let _ = catch(|| dev.handle_request(&msg0));
-                ctx.count("second-request-of-session");
-            }
             let (dk, _) = dev_view(&dev);
             let req_bytes = if ci % 3 == 1 { ctx.loose_bytes(&request) } else { to_bytes(&request) };
             let msg = session_data(Some(&aes_encrypt(&dk.sk_reader, &iso_iv(false, dk.reader_ctr as u32 + 1), &req_bytes)), None);
